@@ -11,10 +11,16 @@ rsync -a --exclude .git /repo/ $S/
 cd $S
 demos=$(ls $SEED | grep '_test.go$')
 place_demo() { for d in $demos; do
-   if grep -q '^package main' $SEED/$d; then
-     if grep -q 'josephburnett/jd/v2' $SEED/$d || grep -qi 'v2/jd' $SEED/NOTES.md; then cp $SEED/$d $S/v2/jd/; else cp $SEED/$d $S/; fi
-   elif grep -q 'josephburnett/jd/lib\|package jd' $SEED/$d && grep -qi '/lib' $SEED/NOTES.md && ! grep -qi 'v2/zz' $SEED/NOTES.md; then cp $SEED/$d $S/lib/;
-   else cp $SEED/$d $S/v2/; fi; done; }
+   # directory named in NOTES.md for this file (relative to the worktree), else by package clause
+   dir=$(grep -o "[A-Za-z0-9_./-]*$d" $SEED/NOTES.md | grep / | head -1 | sed -e "s|^/tmp/wt/[A-Z0-9]*/||" -e "s|^/tmp/seed/[^ ]*||" -e "s|/$d$||")
+   case "$dir" in v2|v2/jd|lib|.|"") ;; *) dir="";; esac
+   if [ -z "$dir" ]; then
+     if grep -q '^package main' $SEED/$d; then
+       if grep -q 'v2\.\|jd/v2"' $SEED/$d && ! grep -q 'jd/lib"' $SEED/$d; then dir=v2/jd; else dir=.; fi
+     elif grep -q 'josephburnett/jd/lib"' $SEED/$d; then dir=.
+     else dir=v2; fi
+   fi
+   cp $SEED/$d $S/$dir/; done; }
 run_demo() { (cd $S && go test -count=1 -run 'Seed|seed|Demo|demo|ZZ|Zz' ./... 2>&1; cd $S/v2 && go test -count=1 -run 'Seed|seed|Demo|demo|ZZ|Zz' ./... 2>&1) | grep -v 'no test files\|web/ui\|build constraints\|^FAIL$' ; }
 place_demo
 for extra in $(ls $SEED | grep -v '_test.go$\|NOTES.md\|patch.diff'); do cp -r $SEED/$extra $S/v2/ 2>/dev/null; cp -r $SEED/$extra $S/v2/jd/ 2>/dev/null; cp -r $SEED/$extra $S/ 2>/dev/null; done
